@@ -179,14 +179,16 @@ def get_branch_type(opcode: int) -> bool | None:  # noqa: D103
             | "POP_JUMP_BACKWARD_IF_TRUE"
             | "POP_JUMP_FORWARD_IF_NOT_NONE"
             | "POP_JUMP_BACKWARD_IF_NOT_NONE"
+            | "POP_JUMP_FORWARD_IF_NONE"
+            | "POP_JUMP_BACKWARD_IF_NONE"
             | "JUMP_IF_TRUE_OR_POP"
         ):
+            # The none-based jumps are traced as `is None` / `is not None` predicates
+            # (see NONE_BASED_JUMPS_MAPPING), which hold exactly when the jump is taken.
             return True
         case (
             "POP_JUMP_FORWARD_IF_FALSE"
             | "POP_JUMP_BACKWARD_IF_FALSE"
-            | "POP_JUMP_FORWARD_IF_NONE"
-            | "POP_JUMP_BACKWARD_IF_NONE"
             | "JUMP_IF_FALSE_OR_POP"
             | "FOR_ITER"
         ):
